@@ -108,6 +108,20 @@ func stressTypes() []ctype {
 		method{"MergeSibling", func(i any, r *SplitMix) { use(i.(*heap.Heap[int]).Merge(heapSibling(i)).Size()) }},
 		method{"SiblingMerge", func(i any, r *SplitMix) { use(heapSibling(i).Merge(i.(*heap.Heap[int])).Size()) }},
 		method{"PushSibling", func(i any, r *SplitMix) { heapSibling(i).Push(r.Intn(5)) }},
+		// Meld locks (and empties) both heaps: two melds in opposite directions are the lock-order scenario; each is
+		// followed by a refill so that the next round again has something to hold the locks for
+		method{"MeldSibling", func(i any, r *SplitMix) {
+			h := i.(*heap.Heap[int])
+			n := h.Size()
+			use(h.Meld(heapSibling(i)).Size())
+			heapRefill(h, n)
+		}},
+		method{"SiblingMeld", func(i any, r *SplitMix) {
+			sb := heapSibling(i)
+			n := sb.Size()
+			use(sb.Meld(i.(*heap.Heap[int])).Size())
+			heapRefill(sb, n)
+		}},
 	)
 	bstT := ctype{
 		name: "bstree.BsTree",
@@ -336,9 +350,27 @@ func heapSibling(i any) *heap.Heap[int] {
 	if !ok {
 		s = heap.NewHeap(func(a, b int) bool { return a < b })
 		s.Push(2, 4)
+		// as large as the instance it belongs to (a long critical section on both sides)
+		if n := i.(*heap.Heap[int]).Size(); n > 2 {
+			heapRefill(s, n)
+		}
 		siblings[i] = s
 	}
 	return s
+}
+
+// heapRefill pushes values until the heap holds about n elements again.
+func heapRefill(h *heap.Heap[int], n int) {
+	if n > 200000 {
+		n = 200000
+	}
+	if k := n - h.Size(); k > 0 {
+		vals := make([]int, k)
+		for j := range vals {
+			vals[j] = (j * 7) % 11
+		}
+		h.Push(vals...)
+	}
 }
 
 func runScenario(t ctype, ms []method, initial int, calls int, r *SplitMix) string {
@@ -511,6 +543,27 @@ func stressMain(args []string) int {
 			for _, initial := range []int{1, 6} {
 				for rep := 0; rep < 3*reps; rep++ {
 					emit(t, four, initial, rep)
+				}
+			}
+			// melds in opposite directions on two large shared heaps (each side holds its first lock for a long
+			// time), alone and next to the cross merges
+			var melds, six []method
+			for _, nm := range []string{"MeldSibling", "SiblingMeld"} {
+				for _, m := range t.methods {
+					if m.name == nm {
+						melds = append(melds, m)
+					}
+				}
+			}
+			six = append(append(six, melds...), four...)
+			for _, initial := range []int{6, 20000} {
+				n := reps
+				if initial > 100 {
+					n = (reps + 2) / 3
+				}
+				for rep := 0; rep < n; rep++ {
+					emit(t, melds, initial, rep)
+					emit(t, six, initial, rep)
 				}
 			}
 		}
